@@ -52,7 +52,15 @@ func StringUtils_guessCharset(bytes []byte, hints map[gozxing.DecodeHintType]int
 			return eci.GetCharset(), nil
 		}
 
-		return ianaindex.IANA.Encoding(name)
+		enc, e := ianaindex.IANA.Encoding(name)
+		if e != nil {
+			return nil, e
+		}
+		if enc == nil {
+			// the IANA index knows the name but x/text has no implementation for it
+			return nil, fmt.Errorf("unsupported character set: %v", name)
+		}
+		return enc, nil
 	}
 
 	// First try UTF-16, assuming anything with its BOM is UTF-16
